@@ -50,7 +50,15 @@ def ntree(fn, ap):
     if root[0] == "arg" and projs[-1:] == ("value",):
         return "self.value"
     if root[0] == "local":
-        # multi-definition local: `val` (value after the kg/byte special case)
+        # multi-definition local: `val` (value after the kg/byte special case).  Which of its components is meant is read from
+        # what its definitions put there, so that `(value, (unit, exponent))`, a struct with named fields, or two separate
+        # locals give the same leaf: the working value is `val.0`, the unit's exponent `val.1.1`
+        comps = _components(fn, root[1], projs)
+        if comps:
+            if all(c in ("orig.1", "val.1.1", "1") for c in comps):
+                return "val.1.1"
+            if all("self.value" in c for c in comps):
+                return "val.0"
         return "val" + ("." + ".".join(projs) if projs else "")
     if root[0] == "agg" and root[1] == "tuple":
         idx = [p for p in projs if p.isdigit()]
@@ -59,6 +67,40 @@ def ntree(fn, ap):
     if root[0] == "const":
         return str(root[1])
     return "?" + ap_str(ap)[:40]
+
+
+def _components(fn, l, projs, depth=0):
+    """The trees that component `projs` of the several-times-defined local l can hold: one per definition that builds l as an
+    aggregate (None when a definition is anything else)."""
+    if depth > 3 or not projs:
+        return None
+    out = set()
+    for d in fn.defs().get(l, []):
+        if d[0] != "stmt":
+            return None
+        rv = d[3]
+        if rv.get("k") == "use" and facts.place_of(rv["a"]) is not None and not facts.place_of(rv["a"])["p"]:
+            sub = _components(fn, facts.place_of(rv["a"])["l"], projs, depth + 1)
+            if sub is None:
+                return None
+            out |= sub
+            continue
+        if rv.get("k") != "agg" or rv.get("agg") not in ("tuple", "adt"):
+            return None
+        names = [str(i) for i in range(len(rv["ops"]))] if rv["agg"] == "tuple" else list(rv.get("fields") or [])
+        if projs[0] not in names:
+            return None
+        ap = fn.apath(rv["ops"][names.index(projs[0])], at=(d[1], d[2]))
+        if len(projs) > 1:
+            if ap[0][0] == "local" and not ap[1]:
+                sub = _components(fn, ap[0][1], tuple(projs[1:]), depth + 1)
+                if sub is None:
+                    return None
+                out |= sub
+                continue
+            ap = fn._select(ap, tuple(projs[1:]))
+        out.add(ntree(fn, ap))
+    return out or None
 
 
 def run(chk, F):
